@@ -255,7 +255,16 @@ def gen_c17(tier, rng):
                 ops.append("dec d pending")
             cases.append(Case("c17", ops, nontrivial=L > 1, tags=("exh-hist%d" % L,)))
     cases += random_histories(tier, rng, 400 if tier == "quick" else 5000, with_pending=True)
-    return cases
+    # the same histories answered by the LOW-LEVEL decoder model (DecoderLL.lean, proved to refine the model in Props/C17b.lean):
+    # the harness treats feedll / pendingll as feed / pending, so this compares the transcription of decoder.cpp with the real decoder
+    ll = []
+    for c in cases:
+        if "rand-hist" in c.tags or "exh-hist1" in c.tags or "exh-hist2" in c.tags or (tier != "quick" and rng.random() < 0.1):
+            if any(" null" in o for o in c.ops):
+                continue
+            ops = [o.replace(" feed ", " feedll ").replace(" pending", " pendingll") for o in c.ops]
+            ll.append(Case("c17ll", ops, nontrivial=c.nontrivial, tags=("ll",) + tuple(c.tags)))
+    return cases + ll
 
 
 def random_frame(rng, eps, seqs):
@@ -953,7 +962,7 @@ def pred_c17(case, impl, model, ctx):
         if l.startswith("CRASH"):
             return False
         w = o.split(" ")
-        if w[0] == "dec" and w[2] == "feed":
+        if w[0] == "dec" and w[2] in ("feed", "feedll"):
             b = b"" if w[3] == "-" else bytes.fromhex(w[3])
             f = _parse_frame_for_spec(b)
             if f is None:
@@ -971,7 +980,7 @@ def pred_c17(case, impl, model, ctx):
                     spec.pop(ep, None)
         elif w[0] == "dec" and w[2] == "destroy":
             spec = {}
-        elif w[0] == "dec" and w[2] == "pending":
+        elif w[0] == "dec" and w[2] in ("pending", "pendingll"):
             if not l.startswith("pending "):
                 return False
             got = {}
